@@ -531,4 +531,248 @@ theorem mpzRootCore_ok (u : Int) (n : Nat) (w : Bool) (hrr : RootremSpec)
       rw [hsg, hb]
 
 
+
+/-! ### Zimmermann's step, mpn_sqrtrem1 -/
+
+
+/-- Zimmermann's step (one level of the Karatsuba square root; also one pass of the loop of
+    mpn_sqrtrem1 with β = 2^prec): from `N = s² + r`, `r ≤ 2s`, `β ≤ 2s` and two more base-β digits
+    `a1, a0` to the root and remainder of `N·β² + a1·β + a0`, with at most one correction. -/
+theorem zstep (β s r a1 a0 q u s' : Nat) (hs : β ≤ 2 * s) (hr : r ≤ 2 * s) (h1 : a1 < β) (h0 : a0 < β)
+    (hdm : 2 * s * q + u = r * β + a1) (hu : u < 2 * s) (hs' : s' = s * β + q) :
+    q ≤ β ∧
+    (q * q ≤ u * β + a0 →
+      s' * s' + (u * β + a0 - q * q) = (s * s + r) * (β * β) + a1 * β + a0 ∧ u * β + a0 - q * q ≤ 2 * s') ∧
+    (u * β + a0 < q * q →
+      1 ≤ s' ∧ q * q ≤ u * β + a0 + (2 * s' - 1) ∧
+      (s' - 1) * (s' - 1) + (u * β + a0 + (2 * s' - 1) - q * q) = (s * s + r) * (β * β) + a1 * β + a0 ∧
+      u * β + a0 + (2 * s' - 1) - q * q ≤ 2 * (s' - 1)) := by
+  have hβ : 0 < β := by omega
+  have hq : q ≤ β := by
+    by_contra hc
+    have : β + 1 ≤ q := by omega
+    have : 2 * s * (β + 1) ≤ 2 * s * q := Nat.mul_le_mul_left _ this
+    nlinarith
+  have hN : s' * s' + (u * β + a0) = (s * s + r) * (β * β) + a1 * β + a0 + q * q := by
+    rw [hs']
+    have : β * (2 * s * q + u) = β * (r * β + a1) := by rw [hdm]
+    nlinarith
+  have hub : u * β + a0 < 2 * s * β := by nlinarith
+  refine ⟨hq, fun hc => ⟨by omega, ?_⟩, fun hc => ?_⟩
+  · have : 2 * s * β ≤ 2 * s' := by rw [hs']; nlinarith
+    omega
+  · have hq1 : 1 ≤ q := by
+      by_contra h; have : q = 0 := by omega
+      rw [this] at hc; omega
+    have hs1 : 1 ≤ s' := by rw [hs']; omega
+    have hqq : q * q ≤ 2 * s * β := by nlinarith
+    have h2s : 2 * s * β + 2 * q = 2 * s' := by rw [hs']; ring
+    refine ⟨hs1, by omega, ?_, by omega⟩
+    obtain ⟨m, hm⟩ : ∃ m, s' = m + 1 := ⟨s' - 1, by omega⟩
+    rw [hm] at hN ⊢
+    simp only [Nat.add_sub_cancel]
+    have : (m + 1) * (m + 1) = m * m + 2 * m + 1 := by ring
+    rw [this] at hN
+    have e : 2 * (m + 1) - 1 = 2 * m + 1 := by omega
+    rw [e]
+    omega
+
+
+
+
+theorem step8 (s r np0 : Nat) (hnp : np0 < B) (hr : r ≤ 2 * s) (hs1 : 128 ≤ s) (hs2 : s < 256) :
+    ∃ s' r', sqrtrem1Step 8 (s, r, np0) = (s', r', (np0 * 65536) % B) ∧
+      s' * s' + r' = (s * s + r) * 65536 + np0 / 281474976710656 ∧ r' ≤ 2 * s' := by
+  have hs3 : 0 < 2 * s := by omega
+  obtain ⟨q, u, hdm, hu, hq⟩ : ∃ q u, 2 * s * q + u = r * 256 + np0 / 72057594037927936 ∧ u < 2 * s ∧
+      (r * 256 + np0 / 72057594037927936) / (2 * s) = q :=
+    ⟨_, _, Nat.div_add_mod _ _, Nat.mod_lt _ hs3, rfl⟩
+  obtain ⟨hqb, hA, hC⟩ := zstep 256 s r (np0 / 72057594037927936) (np0 * 256 % B / 72057594037927936) q u (s * 256 + q)
+    (by omega) hr (by simp only [B_eq] at hnp; omega) (by simp only [B_eq]; omega) hdm hu rfl
+  have hqq : q * q ≤ 65536 := by nlinarith
+  have hcomm : q * (2 * s) = 2 * s * q := Nat.mul_comm _ _
+  have hN : (s * s + r) * (256 * 256) + np0 / 72057594037927936 * 256 + np0 * 256 % B / 72057594037927936
+      = (s * s + r) * 65536 + np0 / 281474976710656 := by
+    generalize s * s + r = N
+    simp only [B_eq] at *; omega
+  have e1 : (wshl r 8 + np0 >>> 56) % B = r * 256 + np0 / 72057594037927936 := by
+    unfold wshl; simp only [Nat.shiftLeft_eq, Nat.shiftRight_eq_div_pow, B_eq] at *; omega
+  have e3 : (2 * s) % B = 2 * s := by simp only [B_eq]; omega
+  have e4 : wsub (r * 256 + np0 / 72057594037927936) ((q * (2 * s)) % B) = u := by
+    unfold wsub; simp only [B_eq] at *; omega
+  have e5 : (wshl s 8 + q) % B = s * 256 + q := by
+    unfold wshl; simp only [Nat.shiftLeft_eq, B_eq] at *; omega
+  have e6 : (wshl u 8 + wshl np0 8 >>> 56) % B = u * 256 + np0 * 256 % B / 72057594037927936 := by
+    unfold wshl; simp only [Nat.shiftLeft_eq, Nat.shiftRight_eq_div_pow, B_eq] at *; omega
+  have e7 : (q * q) % B = q * q := by simp only [B_eq]; omega
+  have e9 : wshl (wshl np0 8) 8 = np0 * 65536 % B := by
+    unfold wshl; simp only [Nat.shiftLeft_eq, B_eq] at *; omega
+  unfold sqrtrem1Step
+  dsimp only
+  rw [e1, e3, hq, e4, e5, e6, e7, e9]
+  by_cases hc : u * 256 + np0 * 256 % B / 72057594037927936 < q * q
+  · obtain ⟨c1, c2, c3, c4⟩ := hC hc
+    rw [if_pos hc]
+    have f1 : wsub (s * 256 + q) 1 = s * 256 + q - 1 := by
+      unfold wsub; simp only [B_eq] at *; omega
+    have f2 : (wsub (u * 256 + np0 * 256 % B / 72057594037927936) (q * q) + wsub (2 * (s * 256 + q) % B) 1) % B
+        = u * 256 + np0 * 256 % B / 72057594037927936 + (2 * (s * 256 + q) - 1) - q * q := by
+      unfold wsub; simp only [B_eq] at *; omega
+    refine ⟨_, _, rfl, ?_, ?_⟩
+    · dsimp only; rw [f1, f2, c3, hN]
+    · dsimp only; rw [f1, f2]; exact c4
+  · obtain ⟨c1, c2⟩ := hA (Nat.le_of_not_lt hc)
+    rw [if_neg hc]
+    have f2 : wsub (u * 256 + np0 * 256 % B / 72057594037927936) (q * q)
+        = u * 256 + np0 * 256 % B / 72057594037927936 - q * q := by
+      unfold wsub; simp only [B_eq] at *; omega
+    refine ⟨_, _, rfl, ?_, ?_⟩
+    · dsimp only; rw [f2, c1, hN]
+    · dsimp only; rw [f2]; exact c2
+
+theorem step16 (s r np0 : Nat) (hnp : np0 < B) (hr : r ≤ 2 * s) (hs1 : 32768 ≤ s) (hs2 : s < 65536) :
+    ∃ s' r', sqrtrem1Step 16 (s, r, np0) = (s', r', (np0 * 4294967296) % B) ∧
+      s' * s' + r' = (s * s + r) * 4294967296 + np0 / 4294967296 ∧ r' ≤ 2 * s' := by
+  have hs3 : 0 < 2 * s := by omega
+  obtain ⟨q, u, hdm, hu, hq⟩ : ∃ q u, 2 * s * q + u = r * 65536 + np0 / 281474976710656 ∧ u < 2 * s ∧
+      (r * 65536 + np0 / 281474976710656) / (2 * s) = q :=
+    ⟨_, _, Nat.div_add_mod _ _, Nat.mod_lt _ hs3, rfl⟩
+  obtain ⟨hqb, hA, hC⟩ := zstep 65536 s r (np0 / 281474976710656) (np0 * 65536 % B / 281474976710656) q u (s * 65536 + q)
+    (by omega) hr (by simp only [B_eq] at hnp; omega) (by simp only [B_eq]; omega) hdm hu rfl
+  have hqq : q * q ≤ 4294967296 := by nlinarith
+  have hcomm : q * (2 * s) = 2 * s * q := Nat.mul_comm _ _
+  have hN : (s * s + r) * (65536 * 65536) + np0 / 281474976710656 * 65536 + np0 * 65536 % B / 281474976710656
+      = (s * s + r) * 4294967296 + np0 / 4294967296 := by
+    generalize s * s + r = N
+    simp only [B_eq] at *; omega
+  have e1 : (wshl r 16 + np0 >>> 48) % B = r * 65536 + np0 / 281474976710656 := by
+    unfold wshl; simp only [Nat.shiftLeft_eq, Nat.shiftRight_eq_div_pow, B_eq] at *; omega
+  have e3 : (2 * s) % B = 2 * s := by simp only [B_eq]; omega
+  have e4 : wsub (r * 65536 + np0 / 281474976710656) ((q * (2 * s)) % B) = u := by
+    unfold wsub; simp only [B_eq] at *; omega
+  have e5 : (wshl s 16 + q) % B = s * 65536 + q := by
+    unfold wshl; simp only [Nat.shiftLeft_eq, B_eq] at *; omega
+  have e6 : (wshl u 16 + wshl np0 16 >>> 48) % B = u * 65536 + np0 * 65536 % B / 281474976710656 := by
+    unfold wshl; simp only [Nat.shiftLeft_eq, Nat.shiftRight_eq_div_pow, B_eq] at *; omega
+  have e7 : (q * q) % B = q * q := by simp only [B_eq]; omega
+  have e9 : wshl (wshl np0 16) 16 = np0 * 4294967296 % B := by
+    unfold wshl; simp only [Nat.shiftLeft_eq, B_eq] at *; omega
+  unfold sqrtrem1Step
+  dsimp only
+  rw [e1, e3, hq, e4, e5, e6, e7, e9]
+  by_cases hc : u * 65536 + np0 * 65536 % B / 281474976710656 < q * q
+  · obtain ⟨c1, c2, c3, c4⟩ := hC hc
+    rw [if_pos hc]
+    have f1 : wsub (s * 65536 + q) 1 = s * 65536 + q - 1 := by
+      unfold wsub; simp only [B_eq] at *; omega
+    have f2 : (wsub (u * 65536 + np0 * 65536 % B / 281474976710656) (q * q) + wsub (2 * (s * 65536 + q) % B) 1) % B
+        = u * 65536 + np0 * 65536 % B / 281474976710656 + (2 * (s * 65536 + q) - 1) - q * q := by
+      unfold wsub; simp only [B_eq] at *; omega
+    refine ⟨_, _, rfl, ?_, ?_⟩
+    · dsimp only; rw [f1, f2, c3, hN]
+    · dsimp only; rw [f1, f2]; exact c4
+  · obtain ⟨c1, c2⟩ := hA (Nat.le_of_not_lt hc)
+    rw [if_neg hc]
+    have f2 : wsub (u * 65536 + np0 * 65536 % B / 281474976710656) (q * q)
+        = u * 65536 + np0 * 65536 % B / 281474976710656 - q * q := by
+      unfold wsub; simp only [B_eq] at *; omega
+    refine ⟨_, _, rfl, ?_, ?_⟩
+    · dsimp only; rw [f2, c1, hN]
+    · dsimp only; rw [f2]; exact c2
+
+
+
+/-- kernel-checked fact about the regenerated `approx_tab`: entry `i` is `⌊√(256·(i+64))⌋`, in [128, 255]. -/
+theorem approxTab_ok : ∀ i < 192, 128 ≤ approxTab.getD i 0 ∧ approxTab.getD i 0 ≤ 255 ∧
+    approxTab.getD i 0 * approxTab.getD i 0 ≤ 256 * (i + 64) ∧
+    256 * (i + 64) < (approxTab.getD i 0 + 1) * (approxTab.getD i 0 + 1) := by decide +kernel
+
+theorem approxTabBase_eq : approxTabBase = 64 := by decide
+
+/-- the table seed plus the first correction is the exact 8-bit root of the top 16 bits. -/
+theorem seed_spec (a : Nat) (h1 : B / 4 ≤ a) (h2 : a < B) :
+    (sqrtrem1Seed a).1 * (sqrtrem1Seed a).1 + (sqrtrem1Seed a).2 = a / 281474976710656 ∧
+    (sqrtrem1Seed a).2 ≤ 2 * (sqrtrem1Seed a).1 ∧ 128 ≤ (sqrtrem1Seed a).1 ∧ (sqrtrem1Seed a).1 < 256 := by
+  have hB := B_eq
+  have hq1 : 64 ≤ a / 72057594037927936 := by omega
+  have hq2 : a / 72057594037927936 < 256 := by omega
+  obtain ⟨t1, t2, t3, t4⟩ := approxTab_ok (a / 72057594037927936 - 64) (by omega)
+  unfold sqrtrem1Seed
+  simp only [Nat.shiftRight_eq_div_pow, approxTabBase_eq, Nat.reduceSub, Nat.reducePow]
+  generalize approxTab.getD (a / 72057594037927936 - 64) 0 = s at *
+  have hZ : (s + 1) * (s + 1) = s * s + 2 * s + 1 := by ring
+  have e1 : s * s % B = s * s := by rw [hB]; omega
+  have e2 : wsub (a / 281474976710656) (s * s) = a / 281474976710656 - s * s := by
+    unfold wsub; rw [hB]; omega
+  rw [e1, e2]
+  by_cases hc : 2 * s < a / 281474976710656 - s * s
+  · rw [if_pos hc]
+    have e3 : (s + 1) % B = s + 1 := by rw [hB]; omega
+    have e4 : wsub (a / 281474976710656 - s * s) ((2 * s + 1) % B) = a / 281474976710656 - s * s - (2 * s + 1) := by
+      unfold wsub; rw [hB]; omega
+    rw [e3, e4]
+    dsimp only
+    have hlt : s + 1 < 256 := by
+      by_contra hh
+      have : 256 * 256 ≤ (s + 1) * (s + 1) := Nat.mul_le_mul (by omega) (by omega)
+      omega
+    refine ⟨by omega, by omega, by omega, hlt⟩
+  · rw [if_neg hc]
+    dsimp only
+    refine ⟨by omega, by omega, t1, by omega⟩
+
+
+
+
+theorem sqrtrem1Loop_unroll (st : Nat × Nat × Nat) :
+    sqrtrem1Loop 6 8 st = sqrtrem1Step 16 (sqrtrem1Step 8 st) := by
+  rw [sqrtrem1Loop, if_pos (by norm_num), sqrtrem1Loop, if_pos (by norm_num), sqrtrem1Loop,
+    if_neg (by norm_num)]
+
+theorem bitsA (x : Nat) (_hx : x < 18446744073709551616) :
+    x / 281474976710656 * 65536 + x * 65536 % 18446744073709551616 / 281474976710656 = x / 4294967296 := by omega
+theorem bitsB (x : Nat) (_hx : x < 18446744073709551616) :
+    x / 4294967296 * 4294967296 + x * 65536 % 18446744073709551616 * 65536 % 18446744073709551616 / 4294967296 = x := by omega
+
+theorem sq_bounds16 (s r N : Nat) (h : s * s + r = N) (hr : r ≤ 2 * s) (h1 : 1073741824 ≤ N) (h2 : N < 4294967296) :
+    32768 ≤ s ∧ s < 65536 := by
+  constructor
+  · by_contra hh
+    have h3 : s + 1 ≤ 32768 := by omega
+    have h4 : (s + 1) * (s + 1) ≤ 32768 * (s + 1) := Nat.mul_le_mul_right _ h3
+    have h5 : (s + 1) * (s + 1) = s * s + 2 * s + 1 := by ring
+    omega
+  · by_contra hh
+    have h3 : 65536 ≤ s := by omega
+    have h4 : 65536 * s ≤ s * s := Nat.mul_le_mul_right _ h3
+    omega
+
+/-- mpn_sqrtrem1 on a normalised limb: `s² + r = a`, `r ≤ 2s`. -/
+theorem sqrtrem1_sq (a : Nat) (h1 : B / 4 ≤ a) (h2 : a < B) :
+    (sqrtrem1 a).1 * (sqrtrem1 a).1 + (sqrtrem1 a).2 = a ∧ (sqrtrem1 a).2 ≤ 2 * (sqrtrem1 a).1 := by
+  have hB := B_eq
+  obtain ⟨g1, g2, g3, g4⟩ := seed_spec a h1 h2
+  unfold sqrtrem1
+  dsimp only
+  generalize (sqrtrem1Seed a).1 = s0 at *
+  generalize (sqrtrem1Seed a).2 = r0 at *
+  rw [sqrtrem1Loop_unroll]
+  have hnp0 : wshl a 16 = a * 65536 % B := by unfold wshl; rw [Nat.shiftLeft_eq]
+  rw [hnp0]
+  obtain ⟨s1, r1, e1, i1, b1⟩ := step8 s0 r0 (a * 65536 % B) (Nat.mod_lt _ B_pos) g2 (by omega) (by omega)
+  rw [e1]
+  have hN1 : (s0 * s0 + r0) * 65536 + a * 65536 % B / 281474976710656 = a / 4294967296 := by
+    rw [g1, hB]; exact bitsA a (by omega)
+  rw [hN1] at i1
+  obtain ⟨hs1a, hs1b⟩ := sq_bounds16 s1 r1 _ i1 b1 (by omega) (by omega)
+  obtain ⟨s2, r2, e2, i2, b2⟩ := step16 s1 r1 (a * 65536 % B * 65536 % B) (Nat.mod_lt _ B_pos) b1 (by omega) (by omega)
+  rw [e2]
+  unfold sqrtrem1Out
+  dsimp only
+  have hN2 : (s1 * s1 + r1) * 4294967296 + a * 65536 % B * 65536 % B / 4294967296 = a := by
+    rw [i1, hB]; exact bitsB a (by omega)
+  rw [hN2] at i2
+  exact ⟨i2, b2⟩
+
+
 end Mpir.Root
